@@ -59,6 +59,18 @@ def cases(tier, seed):
         out.append({"fam": "bigcopies", "q": rng.choice([2, 3, 7, 100, 120]), "m": rng.randint(1, 4),
                     "frac": rng.random(), "seed": rng.randrange(10 ** 6)})
         out.append({"fam": "bigv", "q": rng.randint(3, 12), "seed": rng.randrange(10 ** 6)})
+    # appended (round 4): the three closed-form families at sizes where counts exceed 2**53, so that any detour
+    # through floating point (true division, math.pow, numpy) in counting or unranking shows
+    rng2 = random.Random(seed * 7919 + 13)
+    for _ in range(120 if big else 40):
+        n = rng2.choice([54, 56, 58, 60, 62, 64, 66, 70, 80, 100, 128, 200])
+        out.append({"fam": "bigcwr", "n": n, "m": rng2.choice([n // 2, n // 2 - 1, n // 3, n - n // 3, rng2.randint(1, n)]),
+                    "seed": rng2.randrange(10 ** 6)})
+        out.append({"fam": "bigextract", "sizes": [rng2.randint(2, 9) for _ in range(rng2.randint(18, 40))],
+                    "seed": rng2.randrange(10 ** 6)})
+        out.append({"fam": "bigcomb", "l": rng2.randint(20, 60), "n": rng2.randint(2, 9), "seed": rng2.randrange(10 ** 6)})
+        n = rng2.randint(19, 60)
+        out.append({"fam": "bigpermprefix", "n": n, "m": rng2.randint(max(1, n - 8), n), "seed": rng2.randrange(10 ** 6)})
     for c in out:
         c["cls"] = c["fam"]
     return out
@@ -120,6 +132,68 @@ def _compare(name, img, want, N_reported, viol, params):
         missing = list(want - img_set)[:2]
         viol.append({"kind": "wrong_image", "fam": name,
                      "msg": "%s %s: illegal %s missing %s" % (name, params, extra, missing)})
+
+
+def _run_big_closed_form(C, case, viol):
+    """Closed-form families at sizes beyond 2**53: independent exact count (math.comb / products), then sampled
+    indices (both ends, neighbours, random) must unrank to legal, pairwise distinct arrangements; neighbouring
+    indices are included because a rounded quotient typically collapses or repeats adjacent ranks."""
+    from math import comb, perm
+    fam = case["fam"]
+    rng = random.Random(case["seed"])
+    if fam == "bigcwr":
+        n, m = case["n"], case["m"]
+        want_n = comb(n, m)
+        N = C.n_choose_m(n, m)
+        if N != want_n:
+            viol.append({"kind": "wrong_count", "fam": fam, "msg": "n_choose_m(%d,%d)=%s != %d" % (n, m, N, want_n)})
+        f = lambda j: tuple(sorted(C.compute_jth_combination_without_replacement(n, m, j)))
+        legal = lambda p: len(p) == m and len(set(p)) == m and all(isinstance(x, int) and 0 <= x < n for x in p)
+        params = (n, m)
+    elif fam == "bigextract":
+        sizes = case["sizes"]
+        want_n = 1
+        for x in sizes:
+            want_n *= x
+        f = lambda j: tuple(C.extract_components(list(sizes), j))
+        legal = lambda p: len(p) == len(sizes) and all(isinstance(x, int) and 0 <= x < s for x, s in zip(p, sizes))
+        params = sizes
+    elif fam == "bigcomb":
+        l, n = case["l"], case["n"]
+        want_n = n ** l
+        f = lambda j: tuple(C.compute_jth_combination(l, n, j))
+        legal = lambda p: len(p) == l and all(isinstance(x, int) and 0 <= x < n for x in p)
+        params = (l, n)
+    else:
+        n, m = case["n"], case["m"]
+        want_n = perm(n, m)
+        f = lambda j: tuple(C.compute_jth_permutation_prefix(n, m, j))
+        legal = lambda p: len(p) == m and len(set(p)) == m and all(isinstance(x, int) and 0 <= x < n for x in p)
+        params = (n, m)
+    idxs = {0, want_n - 1}
+    for _ in range(60):
+        j = rng.randrange(want_n)
+        idxs.update(x for x in (j - 1, j, j + 1) if 0 <= x < want_n)
+    for e in range(50, want_n.bit_length()):
+        idxs.update(x for x in (2 ** e - 1, 2 ** e, 2 ** e + 1) if x < want_n)
+    idxs = sorted(idxs)
+    seen = {}
+    for j in idxs:
+        try:
+            p = f(j)
+        except Exception as e:
+            viol.append({"kind": "unrank_failed", "fam": fam, "msg": "%s %s: index %d of %d does not unrank (%s: %s)"
+                         % (fam, str(params)[:60], j, want_n, type(e).__name__, str(e)[:80])})
+            break
+        if not legal(p):
+            viol.append({"kind": "wrong_image", "fam": fam, "msg": "%s %s index %d -> illegal %s" % (fam, str(params)[:60], j, str(p)[:80])})
+            break
+        if p in seen:
+            viol.append({"kind": "not_injective", "fam": fam, "msg": "%s %s: indices %d and %d both -> %s"
+                         % (fam, str(params)[:60], seen[p], j, str(p)[:80])})
+            break
+        seen[p] = j
+    return _result(case, want_n, len(idxs), viol)
 
 
 def run_case(case):
@@ -206,6 +280,8 @@ def run_case(case):
         img2 = [tuple(C.construct_permutation_with_varying_copies(j, q, [m] * q)) for j in range(N)]
         _compare(fam + "/varying", img2, want, None, viol, (q, m))
         return _result(case, N, 2 * N, viol)
+    if fam in ("bigcwr", "bigextract", "bigcomb", "bigpermprefix"):
+        return _run_big_closed_form(C, case, viol)
     if fam in ("bigcopies", "bigv"):
         rng = random.Random(case["seed"])
         if fam == "bigcopies":
